@@ -126,6 +126,10 @@ class World:
                 self.objs[ev["o"]].__enter__()
                 return {"out": "ok"}
             if op == "Exit":
+                if ev.get("exc"):
+                    err = ValueError("raised inside the context")
+                    swallowed = self.objs[ev["o"]].__exit__(ValueError, err, None)
+                    return {"out": "swallowed" if swallowed else "ok"}
                 self.objs[ev["o"]].__exit__(None, None, None)
                 return {"out": "ok"}
             if op == "GenerateKey":
@@ -252,7 +256,7 @@ def driver(cinco, seed, n_traces, length):
                 elif r < 0.50:
                     if depth[o] == 0:
                         continue
-                    ev = {"op": "Exit", "o": o}
+                    ev = {"op": "Exit", "o": o, "exc": rng.random() < 0.3}
                 elif r < 0.62:
                     ev = {"op": "Encrypt", "o": o, "m": rng.choice(["aes", "xor", "best"])}
                 elif r < 0.74:
